@@ -17,6 +17,7 @@ import copy as _copy
 import json
 import os
 import random
+import re
 
 from . import common
 from .common import lst, blit, natlit, strlit
@@ -105,6 +106,7 @@ class Run:
             items = list(r[0].values()) + list(r[1].values())
             if roots.get("drop"):
                 items = [x for x in items if x.name not in roots["drop"]]
+            items += [self.objs[i] for i in roots.get("extra", [])]
             return items
         return [self.objs[r] for r in roots]
 
@@ -159,7 +161,11 @@ class Run:
             n = reg.nodes[i]
             if type(n).__name__ in ("Value", "Data") and isinstance(n.value, int):
                 k += 1
-                n.value = int(n.value) + 10 * k
+                try:
+                    n.value = int(n.value) + 10 * k
+                except Exception as ex:  # noqa
+                    bad.append(f"assigning to {n.name!r} raised {type(ex).__name__}: {str(ex)[:160]}")
+                    break
                 compare(f"after setting {n.name!r}")
         return bad[:4]
 
@@ -169,7 +175,7 @@ class Run:
         pre = len(self.snaps) - 1
         rec = {"op": op, "pre": pre}
         kind = op["op"]
-        live_before = {mi: kit.model_summary(m) for mi, m in enumerate(reg.models) if len(m.nodes)}
+        live_before = {mi: kit.model_summary(m) for mi, m in enumerate(reg.models) if m is not None and len(m.nodes)}
         if kind == "build":
             reuse = op.get("reuse")
             if reuse is not None:
@@ -204,6 +210,9 @@ class Run:
                 rec["err"] = kit.classify(ex)
                 rec["msg"] = str(ex)[:200]
                 model = None
+            if model is None:
+                import gc
+                gc.collect()
             rec["calls"] = list(kit.LOG)
             if model is not None:
                 reg.models.append(model)
@@ -280,6 +289,17 @@ class Run:
                 rec["err"] = kit.classify(ex)
                 rec["exc_type"] = type(ex).__name__
                 rec["msg"] = str(ex)[:200]
+        elif kind == "drop":
+            import gc
+            model = self.results.pop(op["m"])
+            rec["mnodes"] = [reg.nid(n) for n in model.nodes.values()]
+            for mi, mm in enumerate(reg.models):
+                if mm is model:
+                    reg.models[mi] = None
+            self.builders.pop(op["m"], None)
+            del model, mm
+            gc.collect()
+            rec["ok"] = True
         elif kind == "gbrename":
             import re as _re
             r = self.results[op["from"]]
@@ -314,7 +334,7 @@ class Run:
                     bad.append(f"node {n.name!r} has value {sn['nodes'][i]['value']} after the build, from-scratch evaluation gives {want[i]}")
             rec["value_bad"] = bad[:4]
         # live models other than the one operated on must be untouched
-        live_after = {mi: kit.model_summary(m) for mi, m in enumerate(reg.models) if len(m.nodes)}
+        live_after = {mi: kit.model_summary(m) for mi, m in enumerate(reg.models) if m is not None and len(m.nodes)}
         skip = rec.get("mid") if kind in ("build", "deepcopy", "saveload") else (None)
         touched = []
         for mi, s in live_before.items():
@@ -467,6 +487,55 @@ CORPUS = [
              {"op": "build", "roots": {"from": 1}}, {"op": "setval", "m": 4}, {"op": "copynv", "m": 4},
              {"op": "gbrename", "from": 6, "name": "t", "suffix": "_g"},
              {"op": "build", "roots": {"from": 6}}, {"op": "setval", "m": 8}]},
+    # seeded C15-9: an auto-transformed variable, then every kind of second build
+    {"tag": "corpus.auto", "objs": [{"k": "value", "name": "rate", "val": 2, "float": True},
+                                    {"k": "tdist", "name": "", "rate": 0},
+                                    {"k": "var", "name": "scale", "value": {"fconst": 1.5}, "dist": 1, "role": "param", "auto": True},
+                                    {"k": "value", "name": "a", "val": 3},
+                                    {"k": "calc", "name": "c", "pos": [3, 2]}],
+     "ops": [{"op": "build", "roots": [4]}, {"op": "copynv", "m": 0}, {"op": "build", "roots": {"from": 1}},
+             {"op": "setval", "m": 2}, {"op": "pop", "m": 0}, {"op": "build", "roots": {"from": 4}},
+             {"op": "pop", "m": 5}, {"op": "build", "roots": {"from": 6}}, {"op": "setval", "m": 7}]},
+    {"tag": "corpus.auto_copy", "objs": [{"k": "value", "name": "rate", "val": 2, "float": True},
+                                         {"k": "tdist", "name": "", "rate": 0},
+                                         {"k": "var", "name": "scale", "value": {"fconst": 1.5}, "dist": 1, "role": "param", "auto": True},
+                                         {"k": "value", "name": "", "val": 3},
+                                         {"k": "calc", "name": "", "pos": [3, 2]}],
+     "ops": [{"op": "build", "roots": [4], "via": "gb", "copy": True}, {"op": "build", "roots": [4], "reuse": 0, "copy": True},
+             {"op": "build", "roots": [4], "reuse": 0, "copy": False}, {"op": "setval", "m": 2}, {"op": "deepcopy", "m": 2},
+             {"op": "saveload", "m": 2}]},
+    # seeded C15-7: a model dropped without pop (garbage collected), an edit of the graph, a rebuild
+    {"tag": "corpus.dropped", "objs": [{"k": "value", "name": "a", "val": 1}, {"k": "value", "name": "b", "val": 2},
+                                       {"k": "calc", "name": "c", "pos": [0, 1]}, {"k": "calc", "name": "d", "pos": [2, 0]},
+                                       {"k": "dist", "name": "", "pos": [0]},
+                                       {"k": "var", "name": "y", "value": {"const": 2}, "dist": 4, "role": "obs"},
+                                       {"k": "calc", "name": "top", "pos": [3, 5]}],
+     "ops": [{"op": "build", "roots": [6]}, {"op": "drop", "m": 0},
+             {"op": "mutate", "target": 3, "mut": "set_inputs", "arg": {"pos": [1], "kw": []}},
+             {"op": "mutate", "target": 5, "mut": "dist_node", "arg": None},
+             {"op": "build", "roots": [6]}, {"op": "setval", "m": 4}]},
+    # ... and a build rejected for a cycle after the outputs were wired, then repaired differently
+    {"tag": "corpus.cycfail", "objs": [{"k": "value", "name": "a", "val": 1}, {"k": "value", "name": "b", "val": 2},
+                                       {"k": "calc", "name": "c", "pos": [0]}, {"k": "calc", "name": "d", "pos": [2, 1]},
+                                       {"k": "calc", "name": "e", "pos": [3, 0]}],
+     "ops": [{"op": "mutate", "target": 2, "mut": "set_inputs", "arg": {"pos": [4], "kw": []}},
+             {"op": "build", "roots": [4]},
+             {"op": "mutate", "target": 2, "mut": "set_inputs", "arg": {"pos": [1], "kw": []}},
+             {"op": "mutate", "target": 4, "mut": "set_inputs", "arg": {"pos": [3], "kw": []}},
+             {"op": "build", "roots": [4]}, {"op": "setval", "m": 4}]},
+    # seeded C15-8: more than ten generated names (and user names n9, n10, v9), pop / copy, one more unnamed node, rebuild
+    {"tag": "corpus.manynames", "objs": [{"k": "value", "name": "", "val": j} for j in range(12)] +
+                                        [{"k": "calc", "name": "top", "pos": list(range(12))},
+                                         {"k": "value", "name": "", "val": 7}],
+     "ops": [{"op": "build", "roots": [12]}, {"op": "pop", "m": 0}, {"op": "build", "roots": {"from": 1, "extra": [13]}},
+             {"op": "setval", "m": 2}, {"op": "copynv", "m": 2}, {"op": "build", "roots": {"from": 4}}]},
+    {"tag": "corpus.manynames2", "objs": [{"k": "value", "name": "n9", "val": 1}, {"k": "value", "name": "n10", "val": 2},
+                                         {"k": "value", "name": "", "val": 3},
+                                         {"k": "var", "name": "v9", "value": {"const": 1}, "dist": None},
+                                         {"k": "var", "name": "v10", "value": {"const": 1}, "dist": None},
+                                         {"k": "var", "name": "", "value": {"const": 1}, "dist": None},
+                                         {"k": "calc", "name": "top", "pos": [0, 1, 2, 3, 4, 5]}],
+     "ops": [{"op": "build", "roots": [6]}, {"op": "setval", "m": 0}]},
     # a full statistical model with dists, roles, groups; every round trip
     {"tag": "corpus.full", "objs": [{"k": "var", "name": "mu", "value": {"const": 1}, "dist": None, "role": "param"},
                                     {"k": "dist", "name": "", "pos": [0]},
@@ -558,8 +627,34 @@ RES_NAMES = ["_modelled_mean", "_models", "_model", "_modelx_seed", "_modelled_s
              "x_seed", "my_seed", "_seed", "model_x", "_Model_x", "_mode", "a_model_b"]
 
 
+def gen_many(rnd):
+    """>= 11 objects that get generated names, some user names of the same shape"""
+    objs, nodeish = [], []
+    nv = rnd.choice([0, 0, 11, 12])
+    nn = rnd.choice([11, 12, 13]) if nv == 0 else rnd.choice([2, 11])
+    user = rnd.sample(["n9", "n10", "n11", "v9", "v10", "n1"], rnd.randint(0, 3))
+    for j in range(nn):
+        objs.append({"k": "value", "name": "", "val": rnd.randint(0, 3)})
+        nodeish.append(len(objs) - 1)
+    for j in range(nv):
+        objs.append({"k": "var", "name": "", "value": {"const": rnd.randint(0, 3)}, "dist": None, "role": ""})
+        nodeish.append(len(objs) - 1)
+    for nm in user:
+        if nm.startswith("v"):
+            objs.append({"k": "var", "name": nm, "value": {"const": 1}, "dist": None, "role": ""})
+        else:
+            objs.append({"k": "value", "name": nm, "val": 1})
+        nodeish.append(len(objs) - 1)
+    objs.append({"k": "calc", "name": rnd.choice(["top", ""]), "pos": list(nodeish)})
+    nodeish.append(len(objs) - 1)
+    return objs, nodeish
+
+
 def gen_prog(rnd, style, size):
-    objs, nodeish = gen_objs(rnd, size, "seeded" if style == "rename" else style)
+    if style == "manynames":
+        objs, nodeish = gen_many(rnd)
+    else:
+        objs, nodeish = gen_objs(rnd, size, "seeded" if style == "rename" else style)
     ops = []
     inputs_of = set()
     for o in objs:
@@ -608,6 +703,65 @@ def gen_prog(rnd, style, size):
     # continuation: assumes the first build succeeded; operations on missing results are skipped by the runner
     script = rnd.choice(["roundtrip", "mutators", "second", "copies", "mixed", "foreign", "livecopy", "reuse"]) \
         if style not in ("cycle", "dup") else rnd.choice(["second", "mutators"])
+    if style == "auto":
+        # one or two auto-transformed variables (real tfd distribution with a default bijector) wired into the graph
+        k0 = len(objs)
+        objs.append({"k": "value", "name": rnd.choice(["rate", ""]), "val": rnd.choice([1, 2, 3]), "float": True})
+        objs.append({"k": "tdist", "name": "", "rate": k0, "family": rnd.choice(["Exponential", "HalfNormal"])})
+        objs.append({"k": "var", "name": rnd.choice(["scale", "sc", "tau"]), "value": {"fconst": rnd.choice([0.5, 1.5, 2.0])},
+                     "dist": k0 + 1, "role": rnd.choice(["param", "param", ""]), "auto": True})
+        objs.append({"k": "calc", "name": rnd.choice(["", "usescale"]), "pos": [k0 + 2] + [r for r in roots[:1] if objs[r]["k"] != "group"]})
+        roots = roots + [k0 + 3]
+        ops[b0]["roots"] = roots
+        ops[b0]["copy"] = False
+        script = rnd.choice(["roundtrip", "copies", "mixed", "reuse", "livecopy_auto"])
+        if script == "livecopy_auto":
+            ops.append({"op": "build", "roots": roots, "via": "gb", "copy": True})
+            ops.append({"op": "setval", "m": b0})
+            ops.append({"op": "pop", "m": b0})
+            ops.append({"op": "build", "roots": {"from": b0 + 3}})
+            return {"objs": objs, "ops": ops, "tag": f"{style}.{script}"}
+    if style == "dropped":
+        # a model that disappears without pop, or a build rejected for a cycle after wiring; then an edit and a rebuild
+        calcs = [j for j in nodeish if objs[j]["k"] == "calc" and len(objs[j]["pos"]) >= 1]
+        vals = [j for j in nodeish if objs[j]["k"] == "value"]
+        if rnd.random() < 0.6 or not calcs:
+            ops.append({"op": "drop", "m": b0})
+        else:
+            a = rnd.choice(calcs)
+            later = [j for j in calcs if j > a]
+            if later:
+                ops.append({"op": "drop", "m": b0})
+                ops.append({"op": "mutate", "target": a, "mut": "set_inputs", "arg": {"pos": [rnd.choice(later)], "kw": []}})
+                ops.append({"op": "build", "roots": roots + later})
+            else:
+                ops.append({"op": "drop", "m": b0})
+        for _ in range(rnd.randint(1, 2)):
+            if calcs and vals:
+                t = rnd.choice(calcs)
+                ops.append({"op": "mutate", "target": t, "mut": "set_inputs",
+                            "arg": {"pos": [rnd.choice([v for v in vals if v < t] or vals)], "kw": []}})
+        dvars = [j for j in nodeish if objs[j]["k"] == "var" and objs[j].get("dist") is not None]
+        if dvars and rnd.random() < 0.5:
+            ops.append({"op": "mutate", "target": rnd.choice(dvars), "mut": "dist_node", "arg": None})
+        k = len(ops)
+        ops.append({"op": "build", "roots": roots})
+        ops.append({"op": "setval", "m": k})
+        ops.append({"op": "pop", "m": k})
+        ops.append({"op": "build", "roots": {"from": k + 2}})
+        return {"objs": objs, "ops": ops, "tag": f"{style}.dropped"}
+    if style == "manynames":
+        h = b0 + 1
+        spare = len(objs)
+        objs.append({"k": "value", "name": "", "val": 9})
+        objs.append({"k": "var", "name": "", "value": {"const": 4}, "dist": None})
+        ops.append({"op": rnd.choice(["pop", "copynv"]), "m": b0})
+        ops.append({"op": "build", "roots": {"from": h, "extra": rnd.choice([[spare], [spare + 1], [spare, spare + 1]])},
+                    "via": rnd.choice(["gb", "model"])})
+        ops.append({"op": "setval", "m": h + 1})
+        ops.append({"op": "pop", "m": h + 1})
+        ops.append({"op": "build", "roots": {"from": h + 3}})
+        return {"objs": objs, "ops": ops, "tag": f"{style}.manynames"}
     if style in ("foreign", "livecopy", "reuse"):
         script = style
     if style == "resnames":
@@ -706,8 +860,8 @@ def gen_prog(rnd, style, size):
     return {"objs": objs, "ops": ops, "tag": f"{style}.{script}"}
 
 
-STYLES = ["plain", "unnamed", "seeded", "dup", "cycle", "groups", "copy", "premut", "foreign", "livecopy", "reuse", "resnames", "rename"]
-MIN_PER_STYLE = {"quick": 14, "thorough": 150}
+STYLES = ["plain", "unnamed", "seeded", "dup", "cycle", "groups", "copy", "premut", "foreign", "livecopy", "reuse", "resnames", "rename", "auto", "dropped", "manynames"]
+MIN_PER_STYLE = {"quick": 12, "thorough": 120}
 
 
 def concretise(run, op, rnd):
@@ -918,6 +1072,14 @@ def generate(ctx):
                     ctx.hist("mutate.inputs_from_live_model." + s["op"]["mut"])
             else:
                 ctx.hist(k)
+            if k == "build":
+                pre_ = c["snaps"][s["pre"]]
+                if any(v.get("auto") for v in pre_["vars"]):
+                    ctx.hist("build.with_auto_transform_pending." + ("ok" if s["ok"] else "rejected"))
+                elif any(v["name"].endswith("_transformed") for v in pre_["vars"]):
+                    ctx.hist("build.again_after_auto_transform." + ("ok" if s["ok"] else "rejected"))
+                if s["ok"] and sum(1 for i in s["mnodes"] if re.fullmatch(r"n\d\d+", c["snaps"][s["post"]]["nodes"][i]["name"])):
+                    ctx.hist("build.generated_names_beyond_n9")
             if k == "build" and isinstance(s["op"]["roots"], dict) and any(
                     t["op"]["op"] == "gbrename" or (t["op"]["op"] == "mutate" and t["op"]["mut"] == "name" and isinstance(t["op"]["target"], dict)
                                                     and t["op"]["target"]["m"] == s["op"]["roots"]["from"] and t["ok"])
@@ -962,7 +1124,7 @@ def world_lit(sn):
     vs = []
     for v in sn["vars"]:
         vs.append(f"mkV {strlit(v['name'])} {natlit(v['value'])} {natlit(v['varvalue'])} {olit(v['dist'])} {blit(v['obs'])} {blit(v['par'])} "
-                  f"{lst(natlit(g) for g in v['groups'])}")
+                  f"{lst(natlit(g) for g in v['groups'])} {blit(v.get('auto', False))}")
     return "(mkW " + lst(ns) + "\n    " + lst(vs) + " " + lst(strlit(g) for g in sn["gnames"]) + ")"
 
 
@@ -1065,6 +1227,8 @@ def step_lit(c, s, wname):
     if k == "pop" and s["ok"]:
         return (f"SPop {pre} {lst(natlit(i) for i in s['mnodes'])} {lst(natlit(i) for i in s['mvars'])} {post} "
                 f"{lst(strlit(x) for x in s['keys'])} {lst(strlit(x) for x in s['vkeys'])}")
+    if k == "drop":
+        return f"SDrop {pre} {lst(natlit(i) for i in s['mnodes'])} {post}"
     if k == "mutate":
         t = f"(TVar {natlit(s['tid'])})" if s["isvar"] else f"(TNode {natlit(s['tid'])})"
         m = op["mut"]
@@ -1198,8 +1362,18 @@ def oracle(c):
                     return f"{where}: variable names are not unique and non-empty: {sorted(vn)}"
                 if len(set(mn)) != len(mn):
                     return f"{where}: a node occurs twice in the model"
+                has_auto = any(pre["vars"][v].get("auto") for v in clv)
+                if has_auto:
+                    # the transform replaces the value node and the distribution of the flagged variables:
+                    # completeness is judged on the graph as it is after the build
+                    cl_post, _ = closure_of(post, s["rn"], s["rv"])
+                    cl_chk = {i for i in cl_post if i < len(pre["nodes"]) or True}
+                else:
+                    cl_chk = cl
+                if any(post["vars"][v].get("auto") for v in s["mvars"]):
+                    return f"{where}: a variable of the built model still carries auto_transform=True"
                 if not op.get("copy"):
-                    missing = [i for i in cl if i not in mn and not _stale_seed(pre, i)]
+                    missing = [i for i in cl_chk if i not in mn and not _stale_seed(pre if i < nold else post, i)]
                     if missing:
                         return f"{where}: recursive inputs missing from the model: {[pre['nodes'][i]['name'] or i for i in missing]}"
                     extra = [i for i in mn if i < nold and i not in cl]
@@ -1208,7 +1382,7 @@ def oracle(c):
                     if any(not post["nodes"][i]["inmodel"] for i in mn):
                         return f"{where}: a model node does not refer to the model"
                 else:
-                    if len(mn) != len([i for i in cl if not _stale_seed(pre, i)]) + 3 + sum(1 for i in cl if pre["nodes"][i]["seed"] and not _stale_seed(pre, i) and not _user_seed(pre, i)):
+                    if not has_auto and len(mn) != len([i for i in cl if not _stale_seed(pre, i)]) + 3 + sum(1 for i in cl if pre["nodes"][i]["seed"] and not _stale_seed(pre, i) and not _user_seed(pre, i)):
                         return f"{where}: copy=True model has {len(mn)} nodes, closure has {len(cl)} (+3 model nodes + seeds)"
                     if any(post["nodes"][i]["inmodel"] != pre["nodes"][i]["inmodel"] or post["nodes"][i]["mid"] != pre["nodes"][i]["mid"] for i in cl):
                         return f"{where}: copy=True changed the model membership of an original node"
@@ -1249,7 +1423,8 @@ def oracle(c):
                 if s.get("value_bad"):
                     return f"{where}: {s['value_bad'][0]}"
                 # rebuilt from popped / copied nodes: must reproduce the model it came from
-                if isinstance(op["roots"], dict) and not op["roots"].get("drop") and op["roots"]["from"] not in renamed:
+                if (isinstance(op["roots"], dict) and not op["roots"].get("drop") and not op["roots"].get("extra")
+                        and op["roots"]["from"] not in renamed):
                     src = built.get(("src", op["roots"]["from"]))
                     if src is not None:
                         a, b = strip_model_part(src), strip_model_part(summ)
@@ -1276,7 +1451,9 @@ def oracle(c):
                 cyc = bool(find_cycle(pre, s["rn"], s["rv"]))
                 inm = any(pre["nodes"][i]["inmodel"] for i in cl)
                 res = any(pre["nodes"][i]["name"].startswith("_model") for i in cl if not _stale_seed(pre, i))
-                derived_dup = len(set(names)) != len(names)
+                # a user-given name may collide with a name DERIVED from a variable name (x_value, x_var_value, x_log_prob);
+                # a generated name (n<k>, v<k>) must never collide with anything: the generator has to skip taken names
+                derived_dup = any(names.count(d) > 1 and not re.fullmatch(r"n\d+", d) for d in set(names))
                 if not (dup or dupg or cyc or inm or res or derived_dup):
                     return (f"{where}: a graph with unique names, no cycle, no reserved names and no node of another model "
                             f"was rejected: {s['err']}: {s.get('msg')}")
